@@ -92,6 +92,84 @@ var c10Tabs = []c10Tab{
 		[]struct{ name, kind string }{{"naïveté-ñ", "string"}, {"b", "int"}, {"résumé", "bool"}, {"w", "uint"}}},
 }
 
+// the nested-struct zoo (reflect.StructOf): outer fields Name/Verbose/Count and one nested group of k = 1..6 inner fields,
+// placed first / in the middle / last, nested one or two levels deep; table index 4 + (k-1)*3 + pos
+func c10Zoo() (tabs []c10Tab) {
+	str, bl, in := reflect.TypeOf(""), reflect.TypeOf(false), reflect.TypeOf(0)
+	outer := []reflect.StructField{
+		{Name: "Name", Type: str, Tag: `flag:"name,def,outer string"`},
+		{Name: "Verbose", Type: bl, Tag: `flag:"verbose"`},
+		{Name: "Count", Type: in, Tag: `flag:"count,3"`},
+	}
+	outerT := []string{"name:string:def", "verbose:bool:", "count:int:3"}
+	outerF := []struct{ name, kind string }{{"name", "string"}, {"verbose", "bool"}, {"count", "int"}}
+	for k := 1; k <= 6; k++ {
+		var inner []reflect.StructField
+		var innerT []string
+		var innerF []struct{ name, kind string }
+		for j := 1; j <= k; j++ {
+			t, kind := in, "int"
+			switch j % 3 {
+			case 1:
+				t, kind = str, "string"
+			case 2:
+				t, kind = bl, "bool"
+			}
+			n := "i" + strconv.Itoa(j)
+			inner = append(inner, reflect.StructField{Name: "I" + strconv.Itoa(j), Type: t, Tag: reflect.StructTag(`flag:"` + n + `"`)})
+			innerT = append(innerT, n+":"+kind+":")
+			innerF = append(innerF, struct{ name, kind string }{n, kind})
+		}
+		for pos := 0; pos < 3; pos++ {
+			for depth := 1; depth <= 2; depth++ {
+				grpT := reflect.StructOf(inner)
+				prefix := "Grp."
+				if depth == 2 {
+					grpT = reflect.StructOf([]reflect.StructField{{Name: "Sub", Type: grpT}})
+					prefix = "Grp.Sub."
+				}
+				grp := reflect.StructField{Name: "Grp", Type: grpT}
+				var fields []reflect.StructField
+				var tt []string
+				var paths []string
+				var ff []struct{ name, kind string }
+				addInner := func() {
+					fields = append(fields, grp)
+					tt = append(tt, innerT...)
+					ff = append(ff, innerF...)
+					for _, f := range inner {
+						paths = append(paths, prefix+f.Name)
+					}
+				}
+				addOuter := func(lo, hi int) {
+					for i := lo; i < hi; i++ {
+						fields = append(fields, outer[i])
+						tt = append(tt, outerT[i])
+						ff = append(ff, outerF[i])
+						paths = append(paths, outer[i].Name)
+					}
+				}
+				switch pos {
+				case 0:
+					addInner()
+					addOuter(0, 3)
+				case 1:
+					addOuter(0, 1)
+					addInner()
+					addOuter(1, 3)
+				default:
+					addOuter(0, 3)
+					addInner()
+				}
+				typ := reflect.StructOf(fields)
+				tabs = append(tabs, c10Tab{4 + (k-1)*3 + pos, "help:bool:false,config:string:," + strings.Join(tt, ","),
+					func() any { return reflect.New(typ).Interface() }, paths, ff})
+			}
+		}
+	}
+	return tabs
+}
+
 func c10Canon(v reflect.Value, goPath string) string {
 	for _, p := range strings.Split(goPath, ".") {
 		v = v.FieldByName(p)
@@ -328,6 +406,7 @@ func runC10(e *hk.Env) error {
 	}
 	defer func() { os.Chdir(cwd); os.RemoveAll(tmp) }()
 
+	c10Tabs = append(c10Tabs[:4:4], c10Zoo()...)
 	// the table lines, from the harness's own description of the structs
 	for _, tab := range c10Tabs {
 		var tl []string
@@ -410,6 +489,10 @@ func runC10(e *hk.Env) error {
 				}
 			}
 			if ti > 0 && !intsOnly {
+				maxL := 3
+				if ti >= 4 {
+					maxL = 2 // the nested-struct zoo: 36 types
+				}
 				var alpha []string
 				for _, f := range cur.flags {
 					alpha = append(alpha, "-"+f.name, "--"+f.name+"=", "-"+f.name+"=1")
@@ -425,7 +508,7 @@ func runC10(e *hk.Env) error {
 						gen(append(prefix[:len(prefix):len(prefix)], t), l-1)
 					}
 				}
-				for l := 1; l <= 3; l++ {
+				for l := 1; l <= maxL; l++ {
 					gen(nil, l)
 				}
 			}
